@@ -95,7 +95,7 @@ static htp_status_t htp_connp_res_receiver_send_data(htp_connp_t *connp, int is_
 
     htp_tx_data_t d;
     d.tx = connp->out_tx;
-    d.data = connp->out_current_data + connp->out_current_receiver_offset;
+    d.data = (connp->out_current_data == NULL) ? NULL : connp->out_current_data + connp->out_current_receiver_offset;
     d.len = connp->out_current_read_offset - connp->out_current_receiver_offset;
     d.is_last = is_last;
 
@@ -249,7 +249,7 @@ static htp_status_t htp_connp_res_buffer(htp_connp_t *connp) {
 static htp_status_t htp_connp_res_consolidate_data(htp_connp_t *connp, unsigned char **data, size_t *len) {    
     if (connp->out_buf == NULL) {
         // We do not have any data buffered; point to the current data chunk.
-        *data = connp->out_current_data + connp->out_current_consume_offset;
+        *data = (connp->out_current_data == NULL) ? NULL : connp->out_current_data + connp->out_current_consume_offset;
         *len = connp->out_current_read_offset - connp->out_current_consume_offset;
     } else {
         // We do have data in the buffer. Add data from the current
@@ -487,7 +487,8 @@ htp_status_t htp_connp_RES_BODY_IDENTITY_CL_KNOWN(htp_connp_t *connp) {
     if (bytes_to_consume == 0) return HTP_DATA;    
 
     // Consume the data.
-    htp_status_t rc = htp_tx_res_process_body_data_ex(connp->out_tx, connp->out_current_data + connp->out_current_read_offset, bytes_to_consume);
+    htp_status_t rc = htp_tx_res_process_body_data_ex(connp->out_tx,
+            (connp->out_current_data == NULL) ? NULL : connp->out_current_data + connp->out_current_read_offset, bytes_to_consume);
     if (rc != HTP_OK) return rc;
 
     // Adjust the counters.
@@ -522,7 +523,8 @@ htp_status_t htp_connp_RES_BODY_IDENTITY_STREAM_CLOSE(htp_connp_t *connp) {
     fprintf(stderr, "bytes_to_consume %"PRIuMAX, (uintmax_t)bytes_to_consume);
     #endif
     if (bytes_to_consume != 0) {
-        htp_status_t rc = htp_tx_res_process_body_data_ex(connp->out_tx, connp->out_current_data + connp->out_current_read_offset, bytes_to_consume);
+        htp_status_t rc = htp_tx_res_process_body_data_ex(connp->out_tx,
+                (connp->out_current_data == NULL) ? NULL : connp->out_current_data + connp->out_current_read_offset, bytes_to_consume);
         if (rc != HTP_OK) return rc;
 
         // Adjust the counters.
